@@ -35,15 +35,33 @@ def birth_rules(ctx, prog):
             found.setdefault(name, []).append((F, n))
     # table: producer -> where it may appear
     allowed = {"pipe": {"pipe_init"}, "open": {"redirect_path"}, "dup2": {"process_start"}, "fcntl": None}
+
+    def only_from_process_start(fname, seen=None):
+        """the function is process_start itself or a helper whose every caller (transitively) is"""
+        seen = seen or set()
+        if fname == "process_start":
+            return True
+        if fname in seen:
+            return False
+        seen.add(fname)
+        callers = {Fx.name for Fx in prog.funcs_all for c in Fx.calls(fname)}
+        return bool(callers) and all(only_from_process_start(c, seen) for c in callers)
+    # duplications happen on the child side only: read off the all-paths run of process_start (helpers inlined)
+    from .. import startpath as SP
+    rs = SP.start_run(ctx, prog)[0]
+    parent_dups = sorted({site_of(e[1], e[2]) for e in rs.events if (e[0] == "dup2" or (e[0] == "fd-create" and e[3] and e[3][0] == "dupfd"))
+                          and e[4] is not None and e[4].mon.get("proc") != "child"})
+    ctx.ob("C11.X1", "process_start: duplications", "descriptors are duplicated (dup2, fcntl(F_DUPFD_CLOEXEC)) on the child side only",
+           not parent_dups, {"on_the_parent_side": parent_dups[:3]}, nontrivial=True)
     for name, sites in found.items():
         for F, n in sites:
             if name == "fcntl":
                 cmd = const_of(prog, n["c"][2])
                 if cmd in (0, 1030):
-                    ctx.ob("C11.X1", site_of(F, n), "a descriptor is duplicated only on the child side of process_start and with "
-                           "F_DUPFD_CLOEXEC", F.name == "process_start" and cmd == 1030, {"cmd": cmd, "line": n["l"][0]})
+                    ctx.ob("C11.X1", site_of(F, n), "a descriptor is duplicated only by process_start (or a helper only it uses) and with "
+                           "F_DUPFD_CLOEXEC", only_from_process_start(F.name) and cmd == 1030, {"cmd": cmd, "line": n["l"][0]})
                 continue
-            ok = name in allowed and F.name in allowed[name]
+            ok = name in allowed and (F.name in allowed[name] or (name == "dup2" and only_from_process_start(F.name)))
             ctx.ob("C11.X1", site_of(F, n), "descriptor-producing calls appear only at the known, reviewed sites (pipe in pipe_init, open "
                    "in redirect_path, dup2 on the child side of process_start)", ok, {"call": name, "function": F.name, "line": n["l"][0]})
     ctx.floor("C11.X1", 3)
@@ -275,27 +293,35 @@ def closeall_rules(ctx, prog):
     body = F.nodes[loop["body"]]
     conts = [x for x in walk_nodes(body) if x["k"] == "ContinueStmt"]
     excuses = []
+
+    def disjuncts(x):
+        x = strip(x)
+        if x["k"] == "BinaryOperator" and x["op"] == "||":
+            return disjuncts(x["c"][0]) + disjuncts(x["c"][1])
+        return [x]
     for c in conts:
         cond_if = None
         for a in F.ancestors(c):
             if a["k"] == "IfStmt":
                 cond_if = F.nodes[a["cond"]]
                 break
-        txt = expr_str(cond_if) if cond_if else "?"
-        kind = None
-        if cond_if is not None:
-            calls = [x for x in walk_nodes(cond_if) if x["k"] == "CallExpr"]
-            refs = {x["name"] for x in declrefs(cond_if)}
-            if calls and calls[0].get("callee") == "fd_in_set" and expr_str(strip(calls[0]["c"][1])) == var:
+        if cond_if is None:
+            excuses.append(("unconditional continue", None))
+            continue
+        # every way of making the condition true must be an excuse: it is judged disjunct by disjunct
+        for d in disjuncts(cond_if):
+            txt = expr_str(d)[:80]
+            kind = None
+            calls = [x for x in walk_nodes(d) if x["k"] == "CallExpr"]
+            refs = {x["name"] for x in declrefs(d)}
+            if calls and calls[0].get("callee") == "fd_in_set" and d["k"] == "CallExpr" and expr_str(strip(calls[0]["c"][1])) == var:
                 kind = "keep list"
-            elif not calls and var in refs and all(x["k"] != "BinaryOperator" or x["op"] in ("==", "||") for x in walk_nodes(cond_if)
-                                                   if x["k"] == "BinaryOperator"):
-                eqs = [x for x in walk_nodes(cond_if) if x["k"] == "BinaryOperator" and x["op"] == "=="]
-                # every comparison is `loop variable == an end of the error pipe` (judged on the abstract values, not the names)
-                kind = "error pipe" if eqs and all(pipe_cmp.get(x["id"]) for x in eqs) else None
-        excuses.append((txt, kind))
+            elif not calls and var in refs and d["k"] == "BinaryOperator" and d["op"] == "==":
+                # `loop variable == an end of the error pipe` (judged on the abstract values, not the names)
+                kind = "error pipe" if pipe_cmp.get(d["id"]) else None
+            excuses.append((txt, kind))
     ctx.ob("C11.X2b", "process_fork: close-all loop skips", "a visited descriptor is skipped only because it is one of the error pipe ends "
-           "or a member of the keep list", all(k for t, k in excuses) and len(excuses) >= 2, {"continue_conditions": excuses})
+           "or a member of the keep list", all(k for t, k in excuses) and any(k == "keep list" for t, k in excuses), {"continue_conditions": excuses})
     # the close is conditional only on "is it open": if (fcntl(i, F_GETFD) >= 0) close
     closes = [x for x in walk_nodes(body) if x["k"] == "CallExpr" and x.get("callee") in ("handle_destroy", "close")]
     guard_ok = False
